@@ -447,6 +447,7 @@ def max_overlap(reps):
 # ---- misbehaving sessions (C18) ----------------------------------------------------------------------------------
 
 MISBEHAVIOURS = (
+    "connect_close",        # connect, send nothing, close
     "header_only",          # LOAD_EXEC header announcing len(blob), then close
     "short_header",         # 3 bytes of a header, then close
     "trunc_0", "trunc_1", "trunc_half", "trunc_len1",   # header + payload cut at 0 / 1 / half / len-1, then close
@@ -475,7 +476,9 @@ def misbehave(vmd_dir, kind, blob, rng, timeout=30.0, n_bytes=None):
     the thing that gets truncated); `rng` drives garbage / cut positions; returns a Reply (kind set)."""
     def fn(s, rep):
         full = header(LOAD_EXEC, len(blob)) + blob
-        if kind == "header_only":
+        if kind == "connect_close":
+            rep.closed_by_us = True
+        elif kind == "header_only":
             _send(s, header(LOAD_EXEC, len(blob)), rep)
             rep.closed_by_us = True
         elif kind == "short_header":
